@@ -87,6 +87,18 @@ def hDivLayer : Handler := handler fun args =>
       | none => .list [.sym "raised"])
   | _ => none
 
+/-- `(div-layer-ok a b ((src lo hi rb)…) ((k…)…))` ↦ `true|false`: the certificate `Repart.layerOK` evaluated on a
+    layer given explicitly (the harness passes the layer the REAL `_layer()` built) -/
+def hDivLayerOK : Handler := handler fun args =>
+  match args with
+  | [a, b, .list sl, out] => do
+    let slices ← sl.mapM fun e => match e with
+      | .list [src, lo, hi, rb] => do
+        pure ({ src := ← src.toNat?, lo := ← lo.toNat?, hi := ← hi.toNat?, rb := ← rb.toBool? } : Repart.Slice)
+      | _ => none
+    pure (SExp.ofBool (Repart.layerOK (← a.toNats?) (← b.toNats?) { slices := slices, out := ← out.toNatss?, c := [] }))
+  | _ => none
+
 /-- `(repart-divs (keys-of-partition…) a b force)` ↦ global row positions per new partition -/
 def hRepartDivs : Handler := handler fun args =>
   match args with
@@ -251,7 +263,7 @@ def table : List (String × Handler) := [("sdl", hSdl), ("sdl-stats", hSdlStats)
   ("layer-wiring", hLayerWiring), ("set-partitions-pre", hSetPartitionsPre),
   ("truthful", hTruthful), ("locslice-divs", hLocSliceDivs), ("partitions-divs", hPartitionsDivs),
   ("tofewer-bounds", hToFewerBounds), ("split-positions", hSplitPositions), ("nsplits", hNsplits),
-  ("lower-kind", hLowerKind), ("div-layer", hDivLayer), ("repart-divs", hRepartDivs),
+  ("lower-kind", hLowerKind), ("div-layer", hDivLayer), ("div-layer-ok", hDivLayerOK), ("repart-divs", hRepartDivs),
   ("tofewer", hToFewer), ("tomore", hToMore)]
 
 def main : IO Unit := runDriver table
